@@ -36,7 +36,7 @@ func c12Scenarios(n, t int) []Scenario {
 		sc = append(sc, Scenario{Name: fmt.Sprintf("%s/n%d/t%d", name, n, t), Family: fam, Call: c})
 	}
 	// --- SAM inputs: n single-record queries whose rows all differ
-	qseq := []string{"CTGAAATAACCC", "ATGCAATAACCC", "ATGAAATAACCA"}
+	qseq := []string{"CTGAAATAACCC", "GTGCAATAACCC", "ATGAAATAACCA"} // two alleles at position 1, so aggregate keys tie on (position, type)
 	sam := samHeader(12)
 	for i := 0; i < n; i++ {
 		sam += samRec(fmt.Sprintf("q%d", i), 0, 1, "12M", qseq[i])
@@ -94,6 +94,22 @@ func c12Scenarios(n, t int) []Scenario {
 	uq := fastaOf("qa", "AACA", "qb", "ACAA")
 	ut := fastaOf("t0", "AAAA", "t1", "AACC", "t2", "ACCA")
 	add("topranking-ff", "topranking", Call{Cmd: "topranking", Query: uq, Target: ut, Ref: uref, QType: "fasta", TType: "fasta", SizeTotal: 3})
+	if n == 2 && t == 2 {
+		// 14 ancestors of the query at two distances, all tied on ambiguity: more than an insertion sort's worth
+		// of equal keys, fed from a map keyed by distance (--dist-push)
+		bq := fastaOf("q", "CCCAAAAA")
+		var bt []string
+		d1 := []string{"CCAAAAAA", "CACAAAAA", "ACCAAAAA"}
+		d2 := []string{"CAAAAAAA", "ACAAAAAA", "AACAAAAA"}
+		for i := 0; i < 14; i++ {
+			if i%2 == 0 {
+				bt = append(bt, fmt.Sprintf("t%02d", i), d2[(i/2)%3])
+			} else {
+				bt = append(bt, fmt.Sprintf("t%02d", i), d1[(i/2)%3])
+			}
+		}
+		add("topranking-push14", "topranking-push", Call{Cmd: "topranking", Query: bq, Target: fastaOf(bt...), Ref: fastaOf("r", "AAAAAAAA"), QType: "fasta", TType: "fasta", DistPush: 2, NCPU: 1})
+	}
 	add("topranking-ff-table", "topranking", Call{Cmd: "topranking", Query: uq, Target: ut, Ref: uref, QType: "fasta", TType: "fasta", DistPush: 1, Table: true})
 	return sc
 }
@@ -160,6 +176,9 @@ func c12All(tier string) []Scenario {
 	}
 	if tier == "quick" {
 		with(c12Scenarios(2, 2), func(s *Scenario) string {
+			if s.Family == "topranking-push" {
+				return "D1M2"
+			}
 			if c12SmallFamilies[s.Family] {
 				return "U"
 			}
@@ -169,7 +188,12 @@ func c12All(tier string) []Scenario {
 		with(c12CSVScenarios(2), func(s *Scenario) string { return "U" })
 		return sc
 	}
-	with(c12Scenarios(2, 2), func(s *Scenario) string { return "U" })
+	with(c12Scenarios(2, 2), func(s *Scenario) string {
+		if s.Family == "topranking-push" {
+			return "D2M2"
+		}
+		return "U"
+	})
 	with(c12Scenarios(2, 1), func(s *Scenario) string { return "U" })
 	with(c12CSVScenarios(2), func(s *Scenario) string { return "U" })
 	with(c12Scenarios(3, 2), func(s *Scenario) string { return "P2M2" })
@@ -205,7 +229,7 @@ func init() {
 			for _, s := range get(tier) {
 				modes[s.Name] = s.Mode
 			}
-			return map[string]interface{}{"mode_per_scenario (U = all interleavings and map orders, pruned only by happens-before equivalence; PxMy = at most x preemptions and y non-sorted map orders)": modes,
+			return map[string]interface{}{"mode_per_scenario (U = all interleavings and map orders, pruned only by happens-before equivalence; PxMy = at most x preemptions and y non-sorted map orders; DxMy = at most x non-default scheduling choices of any kind and y non-sorted map orders)": modes,
 				"records": map[string]int{"quick": 2, "thorough": 3}[tier], "workers_and_NumCPU": map[string][]int{"quick": {1, 2}, "thorough": {1, 2, 3}}[tier], "scenarios": len(get(tier))}
 		},
 		Plan: func(tier string) ([]string, *engine.JobResult) {
